@@ -60,8 +60,12 @@ func XIdxU(p []byte, a uint8, b uint32, c uint64) (byte, byte, byte) {
 	return p[a], p[b], p[c]
 }
 
-func XConv(a uint8, b uint16, c uint32, d uint64) (int, int, int, uint8, uint16, uint32, uint64, uint8) {
-	return int(a), int(b), int(c), uint8(d), uint16(c), uint32(a), uint64(b), uint8(b)
+func XConv(a uint8, b uint16, c uint32, d uint64) (int, int, int, uint8) {
+	return int(a), int(b), int(c), uint8(d)
+}
+
+func XConvU(a uint8, b uint16, c uint32) (uint16, uint32, uint64, uint8) {
+	return uint16(c), uint32(a), uint64(b), uint8(b)
 }
 
 func XArith(a int, b int, x uint8, y uint8) (int, uint8, bool) {
